@@ -3,7 +3,9 @@ package checks
 import (
 	"fmt"
 	"os"
+	"regexp"
 	"strings"
+	"sync/atomic"
 	"time"
 
 	"verif/engine/interp"
@@ -318,13 +320,16 @@ func RunC18(env *Env, rep *Report) {
 			cases = append(cases, robust(c01Case(e, ShString(e))))
 		}
 	}
+	// every one-token corruption of the well-formed programs
+	corrupt := c18CorruptCases(env.Tier)
+	cases = append(cases, corrupt...)
 	// lint mode on its own (no switches, no fonts)
 	for _, p := range c18Prefixes {
 		cases = append(cases, c18ParserCase(p, []string{"F"}, true, false))
 	}
 	rep.Technique = "symbolic execution of the real lexer on symbolic characters and of the real parser/emitter on token streams with symbolic token types (go/ssa); no-panic / termination by exhaustive path exploration with an instruction budget, error line ranges as validity queries (z3)"
-	rep.Explanation = "Bounded symbolic verification, not a proof. Lexer: inputs made of up to the stated number of symbolic source characters (every ASCII byte incl. NUL; representative 2-, 3- and 4-byte letters, digits, spaces, symbols and U+FFFD) placed in each of the listed concrete contexts are lexed to EOF by symbolic execution of the real lexer; every feasible path must end without a panic and within the instruction budget. Parser/emitter: token streams consisting of a concrete prefix that reaches each parsing loop, followed by up to the stated number of free tokens - identifier, number, string, typed string, raw string, or a token whose TYPE is symbolic over all 48 fixed-spelling token types (keywords, operators, delimiters, illegal character) - and EOF are compiled by symbolic execution of the real parser and emitter (the type comparisons of the parser split the symbolic type lazily, so every distinguishable continuation is explored), in normal mode with optimize/line markers on and off, and in lint mode. Asserted on every path: no panic (nil dereference, index out of range, failed assertion, explicit panic), termination within the budget, a returned error is located with 1 <= start <= end <= number of input lines, lint accepts what normal accepts. Paths ending in a panic or running out of budget are replayed on the native build (with a timeout) before they are reported."
-	rep.Bounds = map[string]interface{}{"lexer_contexts": c18LexContexts, "max_symbolic_characters": maxCells, "lexer_cases": len(lexJobs), "parser_prefixes": len(c18Prefixes), "max_free_tokens": maxFree, "parser_cases": len(cases), "instruction_budget": map[string]int{"lexer": 400000, "compile": 2000000}}
+	rep.Explanation = "Bounded symbolic verification, not a proof. Lexer: inputs made of up to the stated number of symbolic source characters (every ASCII byte incl. NUL; representative 2-, 3- and 4-byte letters, digits, spaces, symbols and U+FFFD) placed in each of the listed concrete contexts are lexed to EOF by symbolic execution of the real lexer; every feasible path must end without a panic and within the instruction budget. Parser/emitter: token streams consisting of a concrete prefix that reaches each parsing loop, followed by up to the stated number of free tokens - identifier, number, string, typed string, raw string, or a token whose TYPE is symbolic over all 48 fixed-spelling token types (keywords, operators, delimiters, illegal character) - and EOF are compiled by symbolic execution of the real parser and emitter (the type comparisons of the parser split the symbolic type lazily, so every distinguishable continuation is explored), in normal mode with optimize/line markers on and off, and in lint mode. The same is done for every one-token corruption of the listed well-formed programs (which together use every construct): at every token position a free token - of symbolic fixed-spelling type, or an identifier; in the thorough tier also a number or a string - is inserted or put in place of the token, or the token is deleted. Asserted on every path: no panic (nil dereference, index out of range, failed assertion, explicit panic), termination within the budget, a returned error is located with 1 <= start <= end <= number of input lines, lint accepts what normal accepts. Paths ending in a panic or running out of budget are replayed on the native build (with a timeout) before they are reported."
+	rep.Bounds = map[string]interface{}{"lexer_contexts": c18LexContexts, "max_symbolic_characters": maxCells, "lexer_cases": len(lexJobs), "parser_prefixes": len(c18Prefixes), "max_free_tokens": maxFree, "parser_cases": len(cases), "corrupted_program_cases": len(corrupt), "wellformed_programs": c18Wellformed, "instruction_budget": map[string]int{"lexer": 400000, "compile": 2000000}}
 	rep.Outside = []string{"longer symbolic stretches", "non-ASCII characters outside the representative set", "memory growth other than through the instruction budget", "font / command config files (main.go I/O)"}
 	rep.Assumptions = []string{"Unicode classification of the representative non-ASCII characters from the host's tables", "free tokens are rendered one per line (their line numbers are those of the rendered text)"}
 	rep.Functions = []string{"lexer.", "parser.", "emitter."}
@@ -348,6 +353,9 @@ func RunC18(env *Env, rep *Report) {
 	}
 	if os.Getenv("VERIF_C18_PART") == "lexer" {
 		cases = nil
+	}
+	if os.Getenv("VERIF_C18_PART") == "corrupt" {
+		lexJobs, cases = nil, corrupt
 	}
 	if n := envInt("VERIF_C18_LIMIT"); n > 0 {
 		if len(lexJobs) > n {
@@ -374,4 +382,105 @@ func RunC18(env *Env, rep *Report) {
 			fmt.Fprintf(os.Stderr, "end %d %v\n", i, time.Since(t0))
 		}
 	})
+	acc := 0
+	for i := range c18Wellformed {
+		acc += int(atomic.LoadInt32(&c18Accepted[i]))
+	}
+	rep.Bounds["wellformed_programs_accepted_uncorrupted"] = fmt.Sprintf("%d of %d", acc, len(c18Wellformed))
+}
+
+// ---- one-token corruptions of well-formed programs
+
+// c18Wellformed are accepted programs that together use every construct; each
+// is corrupted at every token position by a free token.
+var c18Wellformed = []string{
+	`script S { if ( flag ( Z ) || flag ( A ) && flag ( B ) && ! ( var ( V ) == 2 || defeated ( T ) ) ) { foo } elif ( ! flag ( C ) ) { bar ( 1 , X ) } else { baz } }`,
+	`script S { while ( var ( V ) < 3 && ( flag ( A ) || ! defeated ( T ) ) || av ( 1 ) == 2 ) { cmd continue } do { cmd ( "hi$" ) break } while ( flag ( A ) == false ) while { end } }`,
+	`script S { switch ( var ( V ) ) { case 1 : case 2 : cmd break default : cmd2 ( moves ( walk_up * 2 , walk_down ) ) case K : } lbl ( global ) : goto ( lbl ) }`,
+	`script ( local ) S { switch ( av ( 1 , 2 ) ) { case 1 : cmd } poryswitch ( K ) { A { cmd } B : cmd2 _ : end } cmd ( format ( "a b c" , 100 ) , ascii"x" ) return }`,
+	`const K = 1 + 2 const J = K text ( global ) T { poryswitch ( K ) { A : "a$" B { braille"b" } _ : format ( "c d" , numLines = 3 , maxLineLength = 50 ) } } raw ` + "`x y`",
+	`movement M { walk_up * 3 poryswitch ( K ) { A : walk_left _ { walk_right * 2 step_end } } face_down } mart ( global ) Z { ITEM_A K poryswitch ( K ) { A { ITEM_B } _ : ITEM_NONE } }`,
+	`mapscripts M { T1 : L T2 { cmd if ( flag ( A ) ) { end } } T3 [ VAR_A , 1 : L2 VAR_B , K { cmd ( "t$" ) } ] }`,
+}
+
+var c18TokRe = regexp.MustCompile("`[^`]*`|[A-Za-z_][A-Za-z0-9_]*\"[^\"]*\"|\"[^\"]*\"|[A-Za-z_][A-Za-z0-9_]*|[0-9]+|&&|\\|\\||==|!=|<=|>=|\\S")
+
+// c18CorruptCase: mode "insert" puts the free token before position pos,
+// "replace" puts it instead of the token at pos, "delete" just drops the token.
+func c18CorruptCase(ti int, pos int, mode string, kind string) *Case {
+	toks := c18TokRe.FindAllString(c18Wellformed[ti], -1)
+	atoms := &AtomTable{Coded: true}
+	var free string
+	switch kind {
+	case "F":
+		free = atoms.New(ClsFixedTok, "free", "").Placeholder()
+	case "I":
+		free = atoms.New(ClsIdent, "free", "").Placeholder()
+	case "N":
+		free = atoms.New(ClsNum, "free", "").Placeholder()
+	case "S":
+		free = "\"str$\""
+	}
+	var lines []string
+	for i, t := range toks {
+		if i == pos {
+			switch mode {
+			case "insert":
+				lines = append(lines, free, t)
+			case "replace":
+				lines = append(lines, free)
+			case "delete":
+			}
+			continue
+		}
+		lines = append(lines, t)
+	}
+	if pos == len(toks) && mode == "insert" {
+		lines = append(lines, free)
+	}
+	base := c18ParserCase("", nil, false, false)
+	prog := &Program{Atoms: atoms, Tops: []interface{}{&TopRaw{Text: strings.Join(lines, "\n")}}}
+	cs := &Case{Name: fmt.Sprintf("c18/corrupt/%d/%s-%s@%d", ti, mode, kind, pos), Prog: prog, Variants: base.Variants, NonTrivial: true,
+		Shape: c18Shape{Sub: "corrupt", Context: fmt.Sprintf("program %d, %s %s at token %d", ti, mode, kind, pos)}, MaxPaths: 3000}
+	cs.Setup = func(x *OracleCtx) { x.C.Fuel = 3_000_000; x.C.MaxDecide = 200 }
+	cs.Oracle = base.Oracle
+	return cs
+}
+
+// c18Accepted counts the uncorrupted programs the real code accepts (evidence
+// that the corruptions start from well-formed programs; not an assertion).
+var c18Accepted [16]int32
+
+func c18CorruptCases(tier string) []*Case {
+	var cases []*Case
+	for ti, src := range c18Wellformed {
+		ti := ti
+		n := len(c18TokRe.FindAllString(src, -1))
+		plain := c18CorruptCase(ti, -1, "none", "")
+		orig := plain.Oracle
+		plain.Oracle = func(x *OracleCtx) *Violation {
+			if !x.Res["main"].Err.IsErr && x.Res["main"].Err.Panic == "" {
+				atomic.StoreInt32(&c18Accepted[ti], 1)
+			}
+			return orig(x)
+		}
+		cases = append(cases, plain)
+		for pos := 0; pos <= n; pos++ {
+			cases = append(cases, c18CorruptCase(ti, pos, "insert", "F"))
+			if pos < n {
+				cases = append(cases, c18CorruptCase(ti, pos, "replace", "F"), c18CorruptCase(ti, pos, "delete", ""))
+			}
+			if tier == "thorough" {
+				for _, k := range []string{"I", "N", "S"} {
+					cases = append(cases, c18CorruptCase(ti, pos, "insert", k))
+					if pos < n {
+						cases = append(cases, c18CorruptCase(ti, pos, "replace", k))
+					}
+				}
+			} else if pos%2 == 0 {
+				cases = append(cases, c18CorruptCase(ti, pos, "insert", "I"))
+			}
+		}
+	}
+	return cases
 }
